@@ -230,6 +230,7 @@ def tableOps : List String → Table → List String → List String → Option 
       let t := t.write (parseSpans spans)
       tableOps rest t (addUniverse u t) (out ++ [s!"W{t.curPartID}"])
     | ["F"] => tableOps rest t.flush u (out ++ ["F"])
+    | ["I", fl] => tableOps rest { t with inclStart := charAt fl 0 == '1', inclEnd := charAt fl 1 == '1' } u (out ++ ["I"])
     | ["O"] => tableOps rest t u (out ++ [dumpTable t u])
     | "M" :: mode :: sel :: now :: bm :: dsb :: tab :: late :: fg =>
       let req : MergeReq := { mode := charAt mode 0, now := int! now, eachBatch := bm == "e", dropSetBudget := nat! dsb,
@@ -272,6 +273,27 @@ def partCase (toks : List String) : String :=
     else if out.isEmpty then "-" else ",".intercalate (out.map fun (t, c) => s!"{t}:{c}")
   | _ => "bad-op"
 
+/-! ### segment coverage -/
+
+def coverageCase (toks : List String) : String :=
+  match toks with
+  | [st, en, fl, g, tmin, tmax] =>
+    let r : SegRange := { start := int! st, end_ := int! en, inclStart := charAt fl 0 == '1', inclEnd := charAt fl 1 == '1',
+                          startZero := st == "z", endZero := en == "z" }
+    let (mn, mx, known) := coverageOf r
+    let grace := int! g
+    let interior := coverageHasInterior mn mx grace
+    let head := s!"cov={mn},{mx},{b01 known} int={b01 interior}"
+    if known && interior then
+      let cfg : GConfig := { grace := grace, maxProbes := 8, maxDrops := 8 }
+      let cat : GCatalog := { pinned := true, parts := [], baseEpoch := 1, covMin := mn, covMax := mx, gap := grace,
+                              complete := true, covKnown := true, temporal := 1 }
+      let tr : GTrace := { id := "t", complete := true, blocks := [{ min := int! tmin, max := int! tmax, known := true }] }
+      let (d, _) := resolve cfg cat { pinned := true } tr .drop none
+      s!"{head} R {d.action.code} {d.reason.str}"
+    else s!"{head} nosession"
+  | _ => "bad-op"
+
 def handle (line : String) : String :=
   match words line with
   | "gr" :: rest => guardCase rest {}
@@ -281,6 +303,7 @@ def handle (line : String) : String :=
   | "tb" :: rest => tableCase rest
   | "sp" :: rest => searchCase rest
   | "pb" :: rest => partCase rest
+  | "cv" :: rest => coverageCase rest
   | _ => "bad-op"
 
 def main : IO Unit := runDriver handle
